@@ -149,7 +149,7 @@ def iter_rules(chk, I, r1):
                 r = rets[0].val
                 okc = r.loc == ('arg', 'self') and len(r.path) == 2 and r.path[0] == 0 and I.sym_of(r.path[1][1]) == 'k' and all(x.kind == 'panic' for x in co if x not in rets)
         chk.ob('iter', '%s(): the closure yields slot i of this table for the i it is given' % meth, okc, 'closure %r' % (clo,), fn_site(I, fn_))
-    # is_empty = iter().all(|e| e.is_unused())
+    # is_empty: true exactly when every slot of iter() is all-zero - written as iter().all(pred), !iter().any(pred) or an explicit loop
     fn_ = TBL + '::is_empty'
     st = State()
     st.mem[('arg', 'self')] = Opaque('table')
@@ -159,22 +159,9 @@ def iter_rules(chk, I, r1):
         o = r1(fn_, [Ref(('arg', 'self'))], st)
     finally:
         I.opaque_fns = saved
-    ok = len(o) == 1 and o[0].kind == 'ret'
-    calls = [e for e in o[0].st.events if e[0] == 'call'] if ok else []
-    ok = ok and [c[1].split('::')[-1] for c in calls] == ['iter', 'all'] and isinstance(calls[0][2][0], Ref) and calls[0][2][0].loc == ('arg', 'self')
-    okc = False
-    if ok and isinstance(calls[1][2][1], Closure):
-        clo = calls[1][2][1]
-        s2 = State()
-        eref = arg_obj(s2, 'e', Struct(PTE, [BV.sym(64, 'e')]))
-        loc = ('obj', 'clo-env')
-        s2.mem[loc] = clo
-        cf = I.fn[clo.name]
-        envarg = Ref(loc) if cf['locals'][1].get('k') == 'ref' else clo
-        co = I.run_fn(cf, [envarg, eref], s2, {})
-        okc = len(co) == 1 and co[0].kind == 'ret' and same(co[0].val, BV(1, [eq0_bit(tuple(sl('e', 0, 64)))]))
-    chk.ob('iter', 'is_empty() = iter().all(entry is all-zero) and returns that result', ok and okc and isinstance(o[0].val, BV), 'calls %r' % ([c[1] for c in calls],), fn_site(I, fn_))
-    # zero(): every element yielded by iter_mut() gets set_unused
+    ok, detail = scan_is_all_zero(I, o, 'iter')
+    chk.ob('iter', 'is_empty() is true exactly when every element of iter() is all-zero', ok, detail, fn_site(I, fn_))
+    # zero(): every element yielded by iter_mut() gets set to zero - a loop or iter_mut().for_each(..)
     fn_ = TBL + '::zero'
     st = State()
     st.mem[('arg', 'self')] = Opaque('table')
@@ -184,22 +171,7 @@ def iter_rules(chk, I, r1):
         o = r1(fn_, [Ref(('arg', 'self'))], st)
     finally:
         I.opaque_fns = saved
-    rets = [x for x in o if x.kind == 'ret']
-    loops = [x for x in o if x.kind == 'loop']
-    okz = len(rets) == 1 and len(loops) == 1 and len(o) == 2
-    detail = 'paths %r' % (o,)
-    if okz:
-        ev = [e for e in loops[0].st.events if e[0] in ('call', 'icall', 'write')]
-        names = [e[1].split('::')[-1] for e in ev if e[0] != 'write']
-        # iter_mut(self) -> into_iter -> next -> Some(entry) -> set_unused(entry)
-        okz = names[:4] == ['iter_mut', 'into_iter', 'next', 'set_unused'] and ev[0][2][0].loc == ('arg', 'self')
-        if okz:
-            nxt = [e for e in ev if e[0] == 'call' and e[1].endswith('::next')][0]
-            su = [e for e in ev if e[0] == 'icall' and e[1].endswith('set_unused')][0]
-            okz = isinstance(su[2][0], Ref) and su[2][0].loc[0] == 'obj' and ('next#%d' % nxt[5]) in str(su[2][0].loc[1])
-        evr = [e[1].split('::')[-1] for e in rets[0].st.events if e[0] in ('call', 'icall')]
-        okz = okz and evr[:3] == ['iter_mut', 'into_iter', 'next'] and 'set_unused' not in evr
-        detail = 'loop-iteration events %s; exit events %s' % (names, evr)
+    okz, detail = scan_sets_all_zero(I, o, 'iter_mut')
     chk.ob('iter', 'zero(): each element yielded by iter_mut() is set unused; the loop ends only when the iterator does', okz, detail, fn_site(I, fn_))
     # new(): 512 copies of an all-zero entry
     o = r1(TBL + '::new', [])
@@ -208,3 +180,124 @@ def iter_rules(chk, I, r1):
         arr = o[0].val.fields[0]
         ok = isinstance(arr, Array) and arr.length == SP.ENTRIES and not arr.elems and arr.default is not None and eval_value(inner(arr.default), {}) == 0
     chk.ob('iter', 'new(): 512 all-zero entries', ok, 'returns %r' % (o,), fn_site(I, TBL + '::new'))
+
+
+def _apply_to_entry(I, f, value_sym='e'):
+    """run a fn item / closure taking one reference to a page-table entry on a symbolic entry; returns (outcomes, final entry value)"""
+    from ..values import FnItem
+    st = State()
+    eref = arg_obj(st, 'e', Struct(PTE, [BV.sym(64, value_sym)]))
+    if isinstance(f, FnItem):
+        fn = I.fn.get(f.c['name']) or I.fn.get((f.c.get('res') or {}).get('name'))
+        if fn is None:
+            return None, None
+        outs = I.run_fn(fn, [eref], st, {})
+    elif isinstance(f, Closure):
+        loc = ('obj', 'clo-env')
+        st.mem[loc] = f
+        cf = I.fn[f.name]
+        envarg = Ref(loc) if cf['locals'][1].get('k') == 'ref' else f
+        outs = I.run_fn(cf, [envarg, eref], st, {})
+    else:
+        return None, None
+    return outs, [x.st.mem.get(('arg', 'e')) for x in outs]
+
+
+def _iter_source_ok(o, src):
+    """the scan is over `src`(self) itself: the last call producing the iterator is `src` on the table argument, nothing adapts it"""
+    calls = [e for e in o.st.events if e[0] == 'call']
+    srcs = [e for e in calls if e[1].endswith('::' + src)]
+    if len(srcs) != 1 or not (isinstance(srcs[0][2][0], Ref) and srcs[0][2][0].loc == ('arg', 'self')):
+        return False
+    adapt = [e for e in calls if e[1].split('::')[-1] in ('take', 'skip', 'step_by', 'filter', 'rev', 'take_while', 'skip_while', 'zip', 'chain')]
+    return not adapt
+
+
+def scan_is_all_zero(I, outs, src):
+    zero_pred = BV(1, [eq0_bit(tuple(sl('e', 0, 64)))])
+    loops = [x for x in outs if x.kind == 'loop']
+    rets = [x for x in outs if x.kind == 'ret']
+    if not loops:
+        # adaptor form: one path, iter() then all(pred) / any(pred)
+        if len(outs) != 1 or not rets or not _iter_source_ok(rets[0], src):
+            return False, 'paths %r' % (outs,)
+        o = rets[0]
+        calls = [e for e in o.st.events if e[0] == 'call']
+        fin = [e for e in calls if e[1].endswith('Iterator::all') or e[1].endswith('Iterator::any')]
+        if len(fin) != 1 or len(fin[0][2]) != 2:
+            return False, 'calls %r' % ([c[1] for c in calls],)
+        po, _ = _apply_to_entry(I, fin[0][2][1])
+        if not po or len(po) != 1 or po[0].kind != 'ret' or not isinstance(po[0].val, BV):
+            return False, 'predicate not analysable'
+        tag = '%s#%d' % (fin[0][1].split('::')[-1], fin[0][5])
+        res = o.val
+        if not (isinstance(res, BV) and res.w == 1 and isinstance(res.bits[0], tuple) and res.bits[0][0] == 'v' and res.bits[0][1].startswith(tag)):
+            return False, 'result %r is not that of the scan' % (res,)
+        negated = bool(res.bits[0][3])
+        if fin[0][1].endswith('all'):
+            ok = same(po[0].val, zero_pred) and not negated
+        else:
+            ok = same(po[0].val, BV(1, [b_not_(zero_pred.bits[0])])) and negated
+        return ok, 'scan %s with predicate %r, negated=%s' % (fin[0][1].split('::')[-1], po[0].val, negated)
+    # loop form: an iteration that sees a non-zero element returns false, one that sees a zero element goes on; running out returns true
+    ok = bool(rets) and all(_iter_source_ok(x, src) for x in outs)
+    why = []
+    for x in rets + loops:
+        nxt = [e for e in x.st.events if e[0] == 'opaque-result' and e[1].startswith('next#')]
+        last = nxt[-1][2] if nxt else None
+        ent = [k for k in x.st.env if isinstance(k[0], str) and k[0].startswith('next#')]
+        if x.kind == 'ret' and last == 'None':
+            ok = ok and isinstance(x.val, BV) and x.val.is_const() and x.val.value() == 1
+            why.append('exhausted -> %r' % (x.val,))
+        elif x.kind == 'ret' and last == 'Some':
+            # returned from inside an iteration: must be `false`, on an element found non-zero
+            nz = any(f_[1] == 0 for f_ in x.st.notes if isinstance(f_[0], str) and f_[0].startswith('zero('))
+            ok = ok and isinstance(x.val, BV) and x.val.is_const() and x.val.value() == 0 and nz
+            why.append('element non-zero -> %r' % (x.val,))
+        elif x.kind == 'loop':
+            z = any(f_[1] == 1 for f_ in x.st.notes if isinstance(f_[0], str) and f_[0].startswith('zero('))
+            ok = ok and z
+            why.append('element zero -> continue' if z else 'continues without having found the element zero')
+        else:
+            ok = False
+    return ok, '; '.join(why)
+
+
+def b_not_(b):
+    from ..bits import b_not
+    return b_not(b)
+
+
+def scan_sets_all_zero(I, outs, src):
+    loops = [x for x in outs if x.kind == 'loop']
+    rets = [x for x in outs if x.kind == 'ret']
+    if not loops:
+        if len(outs) != 1 or not rets or not _iter_source_ok(rets[0], src):
+            return False, 'paths %r' % (outs,)
+        o = rets[0]
+        calls = [e for e in o.st.events if e[0] == 'call']
+        fe = [e for e in calls if e[1].endswith('Iterator::for_each')]
+        if len(fe) != 1 or len(fe[0][2]) != 2:
+            return False, 'calls %r' % ([c[1] for c in calls],)
+        po, fin = _apply_to_entry(I, fe[0][2][1])
+        ok = bool(po) and len(po) == 1 and po[0].kind == 'ret' and fin[0] is not None and eval_value(inner(fin[0]), {}) == 0
+        return ok, 'for_each applies a function that leaves the element as %r' % (fin and fin[0],)
+    okz = len(rets) == 1 and len(loops) == 1 and len(outs) == 2
+    detail = 'paths %r' % (outs,)
+    if okz:
+        ev = [e for e in loops[0].st.events if e[0] in ('call', 'icall', 'write')]
+        names = [e[1].split('::')[-1] for e in ev if e[0] != 'write']
+        okz = names[:3] == [src, 'into_iter', 'next'] and ev[0][2][0].loc == ('arg', 'self')
+        if okz:
+            nxt = [e for e in ev if e[0] == 'call' and e[1].endswith('::next')][0]
+            ws = [e for e in ev if e[0] == 'write']
+            # the element handed out by next() is left all-zero (and nothing else is written)
+            locs = {e[1].loc for e in ws if isinstance(e[1], Ref)}
+            okz = len(locs) == 1 and next(iter(locs))[0] == 'obj' and ('next#%d' % nxt[5]) in str(next(iter(locs))[1])
+            if okz:
+                fin = loops[0].st.mem.get(next(iter(locs)))
+                okz = fin is not None and eval_value(inner(fin), {}) == 0
+        evr = [e[1].split('::')[-1] for e in rets[0].st.events if e[0] in ('call', 'icall')]
+        okz = okz and evr[:3] == [src, 'into_iter', 'next'] and not [e for e in rets[0].st.events if e[0] == 'write']
+        detail = 'loop-iteration events %s; exit events %s' % (names, evr)
+    return okz, detail
